@@ -115,6 +115,15 @@ Theorem C01_failed_is_error :
 Proof. exact control_failed_is_error. Qed.
 Print Assumptions C01_failed_is_error.
 
+(* the model's ControlEnvironment (p_control) goes from the requested transition straight to the
+   fallback; in the source of this run no return / goto / panic lies between the two and the
+   caller's context is not looked at after the transition, so C01_failed_is_error and
+   C01_illegal_inert hold for callers that cancel, disconnect or time out as well *)
+Theorem C01_control_fallback_unconditional :
+  env_control_exits_before_fallback = 0 /\ env_control_ctx_uses_after_transition = 0.
+Proof. exact control_fallback_unconditional. Qed.
+Print Assumptions C01_control_fallback_unconditional.
+
 (* ... and one that returns no error ends in the documented destination, reported as such *)
 Theorem C01_success_is_documented :
   forall o ot ev w,
